@@ -2,11 +2,16 @@ import XPathV.Lemmas.FlatOrder
 import XPathV.Lemmas.PullProofs
 import XPathV.Model.Api
 import XPathV.Lemmas.Facts
+import XPathV.Lemmas.FlatFiltered
+import XPathV.Lemmas.Pull2Proofs
 /-!
 # C12 — flat paths: document order, no duplicates; iterator protocol
 
 The sequence-level facts are below; the pull-level protocol facts (exhausted stays exhausted,
-`Current` is the node just reported) live on the pull machine `Model/Pull.lean`.
+`Current` is the node just reported) live on the pull machines: `Model/Pull.lean` (core iterator
+types) and `Model/Pull2.lean` (all sixteen iterator types, with `t.Current()` threaded: context,
+absolute, child, cachedChild, attribute, self, parent, descendant, ancestor, following and
+preceding with and without `Sibling`, filter, union, group, descendant-over-descendant, merge).
 -/
 namespace XPathV.Theorems.C12
 open XPathV XPathV.Model XPathV.Facts NumAlg
@@ -93,5 +98,81 @@ theorem single_descendant_sorted {d : Doc} (wf : WF d) (cfg : ECfg) (a : AxisInf
     (h' : sel (F := F) d cfg (.descendant a self .absolute) c = .ok l') :
     (l.map (·.r)).Pairwise (fun a b => Ref.lt a b = true) ∧ (l'.map (·.r)).Pairwise (fun a b => Ref.lt a b = true) :=
   ⟨XPathV.desc_sorted wf cfg a self i hi l h, XPathV.desc_abs_sorted wf cfg a self c l' h'⟩
+
+open XPathV.PathSem XPathV.PredSem XPathV.FlatFiltered in
+/-- **C12, first half, with the predicates allowed by C02/C03, through the builder**: a path made
+only of child, attribute and self steps — every step may carry *any* predicates (boolean,
+positional, `last()`, arbitrary parse trees) — is built, under every builder configuration, into a
+plan whose result sequence from any context is strictly increasing in document order, hence
+duplicate-free.  Needs only a well-formed document. -/
+theorem C12_flat_with_predicates_sorted {d : Doc} (wf : WF d) (cfg : ECfg) (regexOk : RegexOk) (limit : Nat)
+    (snt sdf : Bool) (p : Ast) (hp : FlatAny p) (fl : Flags) (st : BState) (o : BOut)
+    (hb : build regexOk limit snt sdf p fl st = .ok o) (c : Ref) (l : List Item)
+    (hl : sel (F := F) d cfg o.q c = .ok l) :
+    (refs l).Pairwise (fun a b => Ref.lt a b = true) ∧ (refs l).Nodup :=
+  flatAny_sorted wf cfg regexOk limit snt sdf p hp fl st o hb c l hl
+
+open XPathV.PathSem XPathV.PredSem XPathV.FlatFiltered in
+/-- … and with boolean predicates the engine's *sequence* is the oracle's document-ordered list,
+element by element -/
+theorem C12_flat_filtered_is_oracle_list {d : Doc} (wf : WF d) (cfg : ECfg) (hns : cfg.nsIface = true)
+    (hinj : HashInj d cfg) (regexOk : RegexOk) (limit : Nat) (p : Ast) (hp : FlatFrag p) (st : BState) (o : BOut)
+    (hb : build regexOk limit true false p {} st = .ok o) (c : Ref) (hc : validRef d c = true) :
+    ∃ l ns g, sel (F := F) d cfg o.q c = .ok l ∧
+      (refs l).Pairwise (fun a b => Ref.lt a b = true) ∧ (refs l).Nodup ∧
+      Spec.eval (F := F) d p ⟨c, 1, 1⟩ = .ok (.val (.nodes ns) g) ∧
+      (∀ x, x ∈ refs l ↔ x ∈ ns) ∧ refs l = ns :=
+  flatFrag_main wf cfg hns hinj regexOk limit p hp st o hb c hc
+
+open XPathV.PathSem XPathV.FlatFiltered in
+/-- **`//name`** (absolute and relative), through the builder's shortcut: one descendant query,
+sequence strictly increasing in document order -/
+theorem C12_slashslash_sorted {d : Doc} (wf : WF d) (cfg : ECfg) (regexOk : RegexOk) (limit : Nat)
+    (snt sdf : Bool) (a b : AxisInfo) (fl : Flags) (hf : fl.filter = false) (ha : a.axis = "child")
+    (hb : isPlainDos snt b = true) :
+    (∀ s st o, build regexOk limit snt sdf (.axis a (.axis b (.root s))) fl st = .ok o →
+      ∀ c l, sel (F := F) d cfg o.q c = .ok l →
+        (refs l).Pairwise (fun a b => Ref.lt a b = true) ∧ (refs l).Nodup) ∧
+    (∀ st o, build regexOk limit snt sdf (.axis a (.axis b .none)) fl st = .ok o →
+      ∀ c, validRef d c = true → ∀ l, sel (F := F) d cfg o.q c = .ok l →
+        (refs l).Pairwise (fun a b => Ref.lt a b = true) ∧ (refs l).Nodup) :=
+  ⟨fun s st o h c l hl => slashslash_abs_sorted wf cfg regexOk limit snt sdf a b s fl st o hf ha hb h c l hl,
+   fun st o h c hc l hl => slashslash_rel_sorted wf cfg regexOk limit snt sdf a b fl st o hf ha hb h c hc l hl⟩
+
+/-- **C12, second half, all sixteen iterator types (`Model/Pull2`)** — *Evaluate's iterator produces
+the same sequence as Select*: for every covered plan the Go-like pull machine the builder creates,
+drained with enough fuel, reports exactly the sequence `sel` of the plan and ends exhausted.
+(`dec` = the decision of filter predicates, tied to the engine by `DecOK`; `NeedsWF`: only a
+non-sibling `followingQuery` needs a well-formed document.) -/
+theorem C12_all_iterators_refine_sequence (d : Doc) (cfg : ECfg) (dec : Plan → Ref → Bool) (hd : 0 < d.length)
+    (p : Plan) (q : PQ2) (h : PQ2.ofPlan p = some q) (hs : NeedsWF p → WF d)
+    (hdec : q.DecOK (F := F) d cfg dec) (c : Ref) (hg : Good d c) :
+    ∃ l, sel (F := F) d cfg p c = .ok l ∧
+      ∃ q' c' f0, (∀ f, f0 ≤ f → drain2 d cfg dec f q c = some (l, q', c')) ∧
+        (∀ c'', rem2 d cfg dec c'' q' = []) :=
+  drain2_eq_sel d cfg dec hd p q h hs hdec c hg
+
+/-- *MoveNext keeps returning false once it has returned false*, for ever, with any fuel and any
+position of the shared cursor -/
+theorem C12_exhausted_for_ever (d : Doc) (cfg : ECfg) (dec : Plan → Ref → Bool) (hd : 0 < d.length)
+    {f : Nat} {q : PQ2} {c : Ref} {q' : PQ2} {c' : Ref}
+    (hw : NeedsWF q.plan → WF d) (hi : q.Inv d) (hg : Good d c)
+    (h : PQ2.select d cfg dec f q c = (.done, q', c')) :
+    (∀ c'', rem2 d cfg dec c'' q' = []) ∧ q'.Inv d ∧ (NeedsWF q'.plan → WF d) ∧
+    ∀ f2 c2 o q2 c3, Good d c2 → PQ2.select d cfg dec f2 q' c2 = (o, q2, c3) → o ≠ .fuel →
+      o = .done ∧ (∀ c'', rem2 d cfg dec c'' q2 = []) ∧ q2.Inv d ∧ (NeedsWF q2.plan → WF d) :=
+  exhausted_for_ever d cfg dec hd hw hi hg h
+
+/-- *Current is positioned on the node just reported*: `MoveNext` answers true exactly when
+something remains, `Current` is then that node, `position()`/`depth()` are its counters, and the
+tail remains -/
+theorem C12_moveNext_current (d : Doc) (cfg : ECfg) (dec : Plan → Ref → Bool) (hd : 0 < d.length)
+    (q : PQ2) (hs : NeedsWF q.plan → WF d) (hi : q.Inv d) (c : Ref) (hg : Good d c) :
+    ∃ f0, ∀ f, f0 ≤ f →
+      match rem2 d cfg dec c q with
+      | [] => ∃ q' c', PQ2.moveNext d cfg dec f q c = some (false, q', c')
+      | x :: xs => ∃ q', PQ2.moveNext d cfg dec f q c = some (true, q', x.r) ∧
+          q'.position = x.pos ∧ q'.depth = x.lvl ∧ (∀ c'', rem2 d cfg dec c'' q' = xs) ∧ q'.Inv d :=
+  moveNext_current d cfg dec hd q hs hi c hg
 
 end XPathV.Theorems.C12
